@@ -43,6 +43,14 @@ EDATA = [{"app": "x", "title": "héllo"}, {"n": 1, "nested": {"l": [1, 2]}}, {},
 
 
 def mk_events(n, salt):
+    evs = _mk_events(n, salt)
+    if n >= 3:
+        # two identical legacy events (same instant, duration, data): both must arrive
+        evs[1] = Event(timestamp=evs[0].timestamp, duration=evs[0].duration, data=dict(evs[0].data))
+    return evs
+
+
+def _mk_events(n, salt):
     return [Event(timestamp=T0 + timedelta(seconds=7 * i + salt, milliseconds=i % 997), duration=timedelta(microseconds=(i * 1000003 + salt) % 5_000_000), data=dict(EDATA[(i + salt) % len(EDATA)], i=i)) for i in range(n)]
 
 
